@@ -5,6 +5,8 @@ import RR.Proof.DspIir
 import RR.Proof.DspDesign
 import RR.Proof.DspFftBlock
 import RR.Proof.DspHilbert
+import RR.Proof.SigIdeal
+import RR.Proof.WrapFft
 
 /-!
 # C11 — DSP kernels agree with their mathematical definitions and with each other
@@ -227,5 +229,29 @@ example : olaRun (ringOps ℤ) [1, 2, 3] 5 [1, 0, 0, 0, 0, 0, 1, 0, 0, 0] 2 0 [0
     [1, 2, 3, 0, 0, 0, 1, 2, 3, 0] := by decide
 example : iirRun (ringOps ℤ) [1, 1, 1] [] [1, 0, 0, 0, 0] = some [1, 1, 2, 3, 5] := by decide
 example : dotAvx (ringOps ℤ) [1, 2, 3, 4, 5, 6, 7, 8, 9, 10] [1, 1, 1, 1, 1, 1, 1, 1, 2, 2] = some 74 := by decide
+
+/-- SignalSourceFloat / SignalSourceComplex — the generator whose `f64` instance is compared bit for bit
+with the real blocks — over exact reals: for EVERY schedule of free-space values, and whatever whole number
+of turns the `% 2π` removes at each step, the samples emitted are the pure tone
+`out (sin((i+1)·rad)) (−cos((i+1)·rad))`, i = 0, 1, …, cut at the total room offered. -/
+theorem c11_signal_source_ideal (turns : ℝ → ℤ) (rad : ℝ) (out : ℝ → ℝ → Nat) (fs : List Nat) :
+    (genDrive (sigGen (realSigOps turns) rad out) fs (sigGen (realSigOps turns) rad out).init).2 =
+      (List.range fs.sum).map fun i => out (Real.sin ((i + 1 : ℕ) * rad)) (-Real.cos ((i + 1 : ℕ) * rad)) := by
+  rw [gen_drive, sig_ideal]
+
+/-- **FftFilterFloat, every schedule, exact arithmetic.** The float filter is the complex one between two
+inner streams (any capacity) and two sample conversions; however the outer input is cut into read windows and
+however much output space each call finds, what has been delivered is the conversion of a prefix of the
+linear convolution of the converted input — the inner streams lose, duplicate and reorder nothing. -/
+theorem c11_fft_float_block (cd : Codec R) (taps : List R) (ht : 0 < taps.length) (cap : Nat)
+    (toIn toOut : Nat → Nat) (Xn : List Nat) (sched : List (Nat × Nat)) :
+    let S := calcFftSize taps.length - taps.length
+    let W := wrapBlock (fftBlock (ringOps R) cd taps) cap toIn toOut (fftNeed taps)
+    let r := drive1 W Xn W.init 0 [] sched
+    r.2.1 ≤ Xn.length ∧
+    ∃ B, B * S ≤ r.2.1 ∧
+      r.2.2 <+: (((List.range (B * S)).map fun n => convAt taps ((Xn.map toIn).map cd.dec) n).map cd.enc).map toOut :=
+  fft_float_block_eq_conv cd taps ht cap toIn toOut Xn sched
+
 
 end RR.Props.C11
